@@ -46,6 +46,8 @@ type regEntry struct {
 }
 
 type churn struct {
+	stdlibR  *io.PipeReader
+	stdlibW  *io.PipeWriter
 	stop     chan struct{}
 	wg       sync.WaitGroup
 	registry []regEntry
@@ -185,6 +187,9 @@ func startChurn() *churn {
 	add(regEntry{fn: "churnLocked", state: "chan receive", locked: true, creator: creator}, func() { churnLocked(c) })
 	add(regEntry{fn: "churnDeep", state: "chan receive", elided: true, creator: creator}, func() { churnDeep(c, 130) })
 	add(regEntry{fn: "churnString", state: "chan receive", creator: creator}, func() { churnString(c, "hello, churn", 7) })
+	// a goroutine whose frames are all standard library (io.Copy on a pipe nobody writes to)
+	c.stdlibR, c.stdlibW = io.Pipe()
+	go io.Copy(io.Discard, c.stdlibR) //nolint:errcheck
 	c.ready.Add(2)
 	spawnGeneric(c, []int{1, 2, 3}, "generic")
 	spawnGeneric(c, "generic", []int{1, 2, 3})
@@ -454,6 +459,24 @@ func checkWebResponse(res *Result, c *churn, r *webReq, w *httptest.ResponseReco
 			res.violation(mk("registry", "known goroutine "+e.fn+" is not on the page"))
 			return
 		}
+	}
+	// path guessing is not something a request can turn off: standard-library frames are classed as such
+	// whatever the parameters, and the bucket whose frames are all standard library (io.Copy on a pipe)
+	// comes after the buckets with code of this program (C13's contract, end to end)
+	if !strings.Contains(body, `class="FuncStdlib`) {
+		res.violation(mk("classes", "no frame of the page is classed as standard library"))
+		f := mk("classes", "no frame of the page is classed as standard library: the ordering contract has nothing to go by")
+		f.Property = "C13"
+		res.violation(f)
+		return
+	}
+	if iStd, iMain := strings.Index(body, "(*pipe).read</a>"), strings.Index(body, "churnString</a>"); iStd >= 0 && iMain >= 0 {
+		res.count("stdlib_bucket_order_checked", 1)
+	}
+	if iStd, iMain := strings.Index(body, "(*pipe).read</a>"), strings.Index(body, "churnString</a>"); iStd >= 0 && iMain >= 0 && iStd < iMain {
+		f := mk("order", "the bucket of the goroutine in io.Copy (standard library frames only) is shown before the bucket of churnString (package main)")
+		f.Property = "C13"
+		res.violation(f)
 	}
 	// augmentation as requested (and not as an earlier request left it)
 	if i := strings.Index(body, "churnString</a>"); i >= 0 {
